@@ -594,28 +594,8 @@ def rule_11(ctx):
 
 
 def _npf_models():
-    """numpy_financial.pv / pmt: the documented closed forms (when = 'end' | 0 -> 0, 'begin' | 1 -> 1)."""
-    def when_(w):
-        return {'end': 0, 'begin': 1, 0: 0, 1: 1}[w]
-
-    def pv(rate, nper, pmt, fv=0, when='end'):
-        if any(isinstance(x, bool) or not isinstance(x, (int, float)) for x in (rate, nper, pmt, fv)):
-            raise Unmodelled('numpy_financial.pv on non-numbers')
-        w = when_(when)
-        if rate == 0:
-            return -(fv + pmt * nper)
-        t = (1 + rate) ** nper
-        return -(fv + pmt * (1 + rate * w) / rate * (t - 1)) / t
-
-    def pmt(rate, nper, pv, fv=0, when='end'):
-        if any(isinstance(x, bool) or not isinstance(x, (int, float)) for x in (rate, nper, pv, fv)):
-            raise Unmodelled('numpy_financial.pmt on non-numbers')
-        w = when_(when)
-        if rate == 0:
-            return -(fv + pv) / nper
-        t = (1 + rate) ** nper
-        return -(fv + pv * t) / ((1 + rate * w) / rate * (t - 1))
-    return {'ext:numpy_financial.pv': pv, 'ext:numpy_financial.pmt': pmt}
+    from . import values as V
+    return V.npf_models()
 
 
 CALL_FORMS = [
